@@ -41,6 +41,8 @@ pub enum Note {
     Rel { id: u32 },
     /// the frame must have been refused with a protocol error and must leave session state untouched
     MustNotChange { what: &'static str, rule: &'static str },
+    /// a client received CONNACK(session present) carrying Session Expiry Interval 0
+    Expiry0Resume,
 }
 
 thread_local! {
@@ -517,6 +519,7 @@ fn on_send(m: &mut Mdl, pre: &Mdl, ap: &AP, c: &Call, r: &mut Rules, exp_rel: &m
                     Ver::V4 => !*clean,
                     Ver::V5 => prop_u32(props, 0x11).map(|v| v != 0).unwrap_or(false),
                 };
+                m.clean_start = *clean;
                 if *clean {
                     m.new_session();
                     r.label("session.clean-start");
@@ -529,7 +532,7 @@ fn on_send(m: &mut Mdl, pre: &Mdl, ap: &AP, c: &Call, r: &mut Rules, exp_rel: &m
                 m.recv_alias.clear();
             }
         }
-        AP::Connack { code, props, .. } => {
+        AP::Connack { sp, code, props, .. } => {
             if c.sends().iter().any(|a| matches!(a, AP::Connack { .. })) {
                 m.connack_owed = false;
                 if *code == 0 {
@@ -538,8 +541,26 @@ fn on_send(m: &mut Mdl, pre: &Mdl, ap: &AP, c: &Call, r: &mut Rules, exp_rel: &m
                     m.link.own_tam = prop_u16(props, 0x22).unwrap_or(0);
                     m.link.own_mps = prop_u32(props, 0x27);
                     m.link.ska = prop_u16(props, 0x13);
+                    if let (Ver::V5, Some(v)) = (ver, prop_u32(props, 0x11)) {
+                        // the server's Session Expiry Interval overrides the client's
+                        m.persistent = v != 0;
+                        r.label("session.expiry-overridden");
+                    }
                     *resumed = true;
-                    resume_rule(m, pre, c, r, exp_rel, true, w);
+                    if *sp {
+                        r.label("session.resumed");
+                        resume_rule(m, pre, c, r, exp_rel, true, w);
+                    } else {
+                        // session not present: the store is emptied and its identifiers are freed
+                        if !m.store.is_empty() || !m.ids.is_empty() {
+                            r.label("session.not-present-discards");
+                        }
+                        m.new_session();
+                        r.label("session.not-present");
+                        if c.sends().len() > 1 {
+                            r.viol("c06.e-sent-on-new-session", pre, format!("session not present but packets are transmitted: {}", c.describe()));
+                        }
+                    }
                 } else {
                     m.st = St::Disc;
                 }
@@ -656,6 +677,7 @@ fn on_recv(m: &mut Mdl, pre: &Mdl, ap: &AP, frame: &[u8], c: &Call, r: &mut Rule
                         Ver::V4 => !*clean,
                         Ver::V5 => prop_u32(props, 0x11).map(|v| v != 0).unwrap_or(false),
                     };
+                    m.clean_start = *clean;
                     if *clean {
                         m.new_session();
                         r.label("session.clean-start");
@@ -689,10 +711,22 @@ fn on_recv(m: &mut Mdl, pre: &Mdl, ap: &AP, frame: &[u8], c: &Call, r: &mut Rule
                     m.link.peer_tam = prop_u16(props, 0x22).unwrap_or(0);
                     m.link.peer_mps = prop_u32(props, 0x27);
                     m.link.ska = prop_u16(props, 0x13);
+                    if let (Ver::V5, Some(v)) = (ver, prop_u32(props, 0x11)) {
+                        m.persistent = v != 0;
+                        r.label("session.expiry-overridden");
+                    }
                     if *sp {
                         *resumed = true;
                         r.label("session.resumed");
-                        resume_rule(m, pre, c, r, exp_rel, false, w);
+                        let sei0 = ver == Ver::V5 && prop_u32(props, 0x11) == Some(0);
+                        if sei0 {
+                            note(Note::Expiry0Resume);
+                        }
+                        if sei0 && !m.store.is_empty() && c.sends().is_empty() {
+                            // nothing retransmitted: judged once, with the post state, in after_step
+                        } else {
+                            resume_rule(m, pre, c, r, exp_rel, false, w);
+                        }
                     } else {
                         m.new_session();
                         r.label("session.not-present");
@@ -750,6 +784,12 @@ fn on_recv(m: &mut Mdl, pre: &Mdl, ap: &AP, frame: &[u8], c: &Call, r: &mut Rule
                         }
                     }
                 }
+            }
+            // converse: below the limit nothing may be answered as an excess (a same-id resend on the same
+            // connection is itself not allowed in v5.0 and is not judged: only a count strictly below the limit is)
+            let below = pre.link.own_rm.map(|mx| pre.in_unacked.len() < mx as usize).unwrap_or(true);
+            if below && v5 && *qos > 0 && pre.st == St::Connected && (c.errors().contains(&MqttError::ReceiveMaximumExceeded) || c.sends().iter().any(|a| matches!(a, AP::Disconnect { code: Some(0x93), .. }))) {
+                r.viol("c12.inbound-false-excess", pre, format!("the peer has only {} unacknowledged QoS>0 PUBLISH outstanding on this connection (announced Receive Maximum {:?}) but the PUBLISH is answered as 'Receive Maximum exceeded': {}", pre.in_unacked.len(), pre.link.own_rm, c.describe()));
             }
             if !alias_ok && !over_limit {
                 r.label("c13.recv-invalid-alias");
@@ -951,6 +991,18 @@ pub fn after_step<P: Pid>(m: &mut Mdl, pre_m: &Mdl, pre: &VerifState, post: &Ver
                 if stored && !m.store.iter().any(|e| e.id == *id && e.kind == 3) {
                     m.store.push(StoreEnt { id: *id, kind: 3, topic: vec![], payload: vec![] });
                     r.label("c06.pubrel-stored");
+                }
+            }
+            Note::Expiry0Resume => {
+                let model_has = !m.store.is_empty() || !m.ids.is_empty() || !m.q2_notified.is_empty();
+                let lib_wiped = post.store.is_empty() && post.qos2_publish_handled.is_empty() && post.pid_puback.is_empty() && post.pid_pubrec.is_empty() && post.pid_pubcomp.is_empty();
+                if model_has {
+                    r.label("c06.expiry0-resume-with-state");
+                }
+                if model_has && lib_wiped {
+                    r.viol("c06.expiry0-wipes-session", pre_m, format!("CONNACK(session present) with Session Expiry Interval 0: the session is present and only ends with this connection, but its state was discarded at once - {} stored packet(s) not retransmitted, in-flight ids {:?} freed without announcement, handled QoS 2 ids {:?} forgotten", m.store.len(), m.ids.iter().filter(|(_, o)| **o != Owner::App).map(|(i, _)| *i).collect::<Vec<_>>(), m.q2_notified));
+                    // follow the library so that this one defect is reported once
+                    m.new_session();
                 }
             }
             Note::MustNotChange { what, rule } => {
